@@ -434,25 +434,26 @@ def spec_definition(chk):
     for rv in ex.run(f, [Ref(Cell(it)), Ref(Cell(st)), envrc]):
         chk.path(unit)
         tag = ex.lazy_tag(st)
-        kind = next((k for j, k in enumerate(STM) if ex.ctx.check(tag == j) == z3.sat), None)
-        evs = [e for e in ex.events if e["kind"] == "eval"]
-        errs = [e for e in ex.events if e["kind"] == "eval_err"]
-        oks = [e for e in ex.events if e["kind"] == "eval_ok"]
-        writes = [(k, p, c) for (k, p, c) in target.entries if not (hasattr(p, "decl") and str(p).startswith("has_"))]
-        written = [(k, c.v) for (k, p, c) in target.entries if z3.is_true(z3.simplify(p))]
-        is_err = isinstance(rv, Adt) and rv.variant == "Err"
-        post = [z3.BoolVal(all(e["env"] is envrc.cell for e in evs))]
-        if kind == "Definition":
-            post.append(z3.BoolVal(len(evs) == 1 and evs[0]["nbound"] == 0))          # nothing is bound before the initialiser has been evaluated
-            if errs:
-                post.append(z3.BoolVal(is_err and rv.fields[0] is errs[-1]["error"] and not written))
+        for kind in skel.each_value(ex, tag, range(len(STM))):
+            kind = STM[kind]
+            evs = [e for e in ex.events if e["kind"] == "eval"]
+            errs = [e for e in ex.events if e["kind"] == "eval_err"]
+            oks = [e for e in ex.events if e["kind"] == "eval_ok"]
+            writes = [(k, p, c) for (k, p, c) in target.entries if not (hasattr(p, "decl") and str(p).startswith("has_"))]
+            written = [(k, c.v) for (k, p, c) in target.entries if z3.is_true(z3.simplify(p))]
+            is_err = isinstance(rv, Adt) and rv.variant == "Err"
+            post = [z3.BoolVal(all(e["env"] is envrc.cell for e in evs))]
+            if kind == "Definition":
+                post.append(z3.BoolVal(len(evs) == 1 and evs[0]["nbound"] == 0))          # nothing is bound before the initialiser has been evaluated
+                if errs:
+                    post.append(z3.BoolVal(is_err and rv.fields[0] is errs[-1]["error"] and not written))
+                else:
+                    post.append(z3.BoolVal(len(written) == 1 and oks and written[0][1] is oks[-1]["value"] and not is_err))
+            elif kind == "Expression":
+                post.append(z3.BoolVal(len(evs) == 1 and not written))
+            elif kind == "SyntaxDefinition":
+                post.append(z3.BoolVal(not evs and len(written) == 1 and not is_err))
             else:
-                post.append(z3.BoolVal(len(written) == 1 and oks and written[0][1] is oks[-1]["value"] and not is_err))
-        elif kind == "Expression":
-            post.append(z3.BoolVal(len(evs) == 1 and not written))
-        elif kind == "SyntaxDefinition":
-            post.append(z3.BoolVal(not evs and len(written) == 1 and not is_err))
-        else:
-            post.append(z3.BoolVal(is_err and not evs and not written))
-        chk.oblige(ex, unit, "%s: the initialiser/expression is evaluated once in the target frame; a name is bound only after its initialiser succeeded; a failure binds nothing" % kind,
-                   z3.And(*post), {}, replay)
+                post.append(z3.BoolVal(is_err and not evs and not written))
+            chk.oblige(ex, unit, "%s: the initialiser/expression is evaluated once in the target frame; a name is bound only after its initialiser succeeded; a failure binds nothing" % kind,
+                       z3.And(*post), {}, replay)
